@@ -191,6 +191,7 @@ func (wt writeTxn) Create(v interface{}) error {
 		return fmt.Errorf("create value is of type %s, expected type %s", vv.Type().String(), t.String())
 	}
 
+	simAt("create.beforeTxn", wt.id)
 	err := wt.st.DB.Update(func(txn *badger.Txn) error {
 		// Validate that the resource doesn't exist
 		_, err := txn.Get(wt.rname)
@@ -208,11 +209,13 @@ func (wt writeTxn) Create(v interface{}) error {
 		}
 
 		// Marshal the value and store it in the database
+		simAt("create.inTxn", wt.id)
 		return wt.st.setValue(txn, wt.rname, v)
 	})
 	if err != nil {
 		return err
 	}
+	simAt("create.afterCommit", wt.id)
 
 	wt.st.callOnChange(wt.id, nil, v)
 	return nil
@@ -231,6 +234,7 @@ func (wt writeTxn) Update(v interface{}) error {
 		return fmt.Errorf("update value is of type %s, expected type %s", vv.Type().String(), t.String())
 	}
 	var before interface{}
+	simAt("update.beforeTxn", wt.id)
 	err := wt.st.DB.Update(func(txn *badger.Txn) error {
 		var err error
 		// Get before value
@@ -249,6 +253,7 @@ func (wt writeTxn) Update(v interface{}) error {
 			return err
 		}
 
+		simAt("update.inTxn", wt.id)
 		// Marshal new value and update
 		return wt.st.setValue(txn, wt.rname, v)
 	})
@@ -258,6 +263,7 @@ func (wt writeTxn) Update(v interface{}) error {
 		}
 		return err
 	}
+	simAt("update.afterCommit", wt.id)
 
 	wt.st.callOnChange(wt.id, before, v)
 	return nil
@@ -268,6 +274,7 @@ func (wt writeTxn) Update(v interface{}) error {
 // If the value does not exist, res.ErrNotFound is returned.
 func (wt writeTxn) Delete() error {
 	var before interface{}
+	simAt("delete.beforeTxn", wt.id)
 	err := wt.st.DB.Update(func(txn *badger.Txn) error {
 		var err error
 
@@ -287,6 +294,7 @@ func (wt writeTxn) Delete() error {
 			return err
 		}
 
+		simAt("delete.inTxn", wt.id)
 		// Delete value
 		err = txn.Delete(wt.rname)
 		if err != nil {
@@ -300,6 +308,7 @@ func (wt writeTxn) Delete() error {
 		}
 		return err
 	}
+	simAt("delete.afterCommit", wt.id)
 
 	wt.st.callOnChange(wt.id, before, nil)
 	return nil
@@ -382,11 +391,13 @@ func (st *Store) Init(cb func(add func(id string, v interface{})) error) error {
 			created[id] = v
 		}
 
+		simAt("init.afterSeed", "")
 		// Call OnChange callback
 		for id, v := range created {
 			st.callOnChange(id, nil, v)
 		}
 
+		simAt("init.beforeMarker", "")
 		// Set init flag key
 		return txn.Set(initKey, nil)
 	})
